@@ -39,7 +39,8 @@ def cell_value(ri, ci):
 
 
 RANGE_VALUE = [[1, 2], [3, 4]]
-VARS = {'foo': 5, 'bar': 'txt', 'baz_q': 2.5, 'TRUE': True, 'NULL': None, 'lst': [7, 8]}
+# (names that start like a cell reference and go on - x12y, FY2024Q - are variables, one event each, like any other)
+VARS = {'foo': 5, 'bar': 'txt', 'baz_q': 2.5, 'TRUE': True, 'NULL': None, 'lst': [7, 8], 'x12y': 3, 'FY2024Q': 4, 'rate10_pct': 6, 'a1b': 8, 'ab12cd34': 9, 'Q4_2024': 10, 'r2d2': 11}
 
 
 class Gen(object):
@@ -245,8 +246,13 @@ class Check(FormulaCheck):
         r = self.parse(f)
         failing = ('FR(' in f or 'FE(' in f) and r['error'] in ('#DIV/0!', '#N/A')
         if r['error'] is not None and not failing:
+            # the evaluation was cut short somewhere: what was raised until then is still the beginning of the evaluation order -
+            # no event for something the formula does not mention, none twice, none out of turn
             rec.count('formula_errors')
             rec.case()
+            exp = expected_events(t, [])
+            got = [e[:3] if e[0] == 'fn' else e for e in self.log]
+            self.expect('C10/events:not-a-beginning-of-the-evaluation-order:failed-formula', got == exp[:len(got)], formula=f, record=r, got=got[:6], expected=exp[:6])
             return
         if failing:
             # an error value is a value: the evaluation went on to its end, so every reference was met - the failing calls included
@@ -335,6 +341,20 @@ class Check(FormulaCheck):
         self.fresh()
         g = Gen(rnd)
         gf = Gen(rnd, failing_calls=True)
+        # every kind of reference on its own, in the plainest contexts: these cannot fail, so no event may be missing
+        singles = [('var', n) for n in VARS] + [g.atom() for _ in range(60)]
+        for a in singles:
+            if a[0] in ('n', 's'):
+                continue
+            for t in (a, ('paren', a), ('call', 'FA', [a]), ('call', 'FB', [('n', 1), a]), ('call', 'FA', [a, a])):
+                f = render(t)
+                del self.log[:]
+                del self.tokens[:]
+                r = self.parse(f)
+                exp = expected_events(t, [])
+                got = [e[:3] if e[0] == 'fn' else e for e in self.log]
+                self.expect('C10/events:a-lone-reference-does-not-raise-its-event', r['error'] is None and got == exp, formula=f, record=r, got=got[:4], expected=exp[:4])
+                rec.nt(('single', f))
         for k in range(spec['n']):
             t = (gf if k % 4 == 3 else g).expr(rnd.randint(0, 4))
             self.judge_formula(t, rec)
